@@ -14,7 +14,6 @@ V: random multi-layer instances with float scores (moderate, tied, zero, scale-d
 """
 import copy
 import itertools
-import math
 
 import numpy as np
 
@@ -121,7 +120,8 @@ def replay(ck, behaviours, quick, label="main", witness=False):
     for v in range(len(EXACT_VARIANTS)):
       rounds.append(("exact", lambda i: True, lambda i, v=v: ("exact", v)))
     for c in range(len(SCALES)):
-      rounds.append(("scaled", lambda i: True, lambda i, c=c: ("scaled", c, (i + c) % 2)))
+      rounds.append(("scaled", lambda i, c=c: has_choice[i] or (i + c) % 4 == 0,
+                     lambda i, c=c: ("scaled", c, (i + c) % 2)))
   jobs, meta = [], []
   for cls, flt, vof in rounds:
     for j in pack_jobs(instances, vof, rs, flt):
@@ -335,7 +335,6 @@ def run(ck):
   k0 = next(k for k in keys if len(allowed_any[k]) == 1 and k[0] == 3 and sum(k[3]) > 0)
   good = next(iter(allowed_any[k0]))
   inst0 = {"n": k0[0], "dim": k0[1], "base": k0[2], "score": list(k0[3])}
-  swapped = tuple(reversed(good)) if tuple(reversed(good)) != good else None
   bumped = list(good)
   j = min(range(len(bumped)), key=lambda q: bumped[q])
   bumped[j] += 1
